@@ -1,12 +1,459 @@
-use crate::util::Report;
-use crate::Ctx;
-use serde_json::Value;
+//! C12 — unsafe code never touches memory outside the buffers it was given.
+//! Detector 1 (here): guard pages — operands are placed flush against PROT_NONE pages and the
+//!   kernel grid is re-run in a child process; a fault kills the child and the parent reports
+//!   the case the child recorded in a shared file.
+//! Detector 2 (driver): AddressSanitizer builds of the fuzz targets replaying a generated corpus.
+//! Detector 3 (here): the slab's paired borrow — returned slices lie inside the slab and are
+//!   disjoint, or the call panics; results equal a model and no other symbol changes.
 
-pub fn run(_ctx: &Ctx, _rep: &mut Report) {
-    eprintln!("not implemented yet");
-    std::process::exit(2);
+use crate::c11::{self, Case, Op, Path, OPS};
+use crate::reference as rf;
+use crate::util::{catch, fnv_u64s, mix, run_sharded, simple_failure, Failure, Report, SplitMix, Stats, SubOutcome, Tier, VERIF_DIR};
+use crate::Ctx;
+use proptest::prelude::*;
+use raptorq::verif::{Octet, SymbolSlab};
+use serde_json::{json, Value};
+use std::time::Instant;
+
+const PAGE: usize = 4096;
+
+/// An anonymous mapping [guard page][n RW pages][guard page].
+struct Guarded {
+    base: *mut u8,
+    pages: usize,
 }
 
-pub fn replay(_sub: &str, _case: &Value) -> Result<(), String> {
-    Err("not implemented".into())
+impl Guarded {
+    fn new(pages: usize) -> Guarded {
+        unsafe {
+            let total = (pages + 2) * PAGE;
+            let p = libc::mmap(std::ptr::null_mut(), total, libc::PROT_READ | libc::PROT_WRITE, libc::MAP_PRIVATE | libc::MAP_ANONYMOUS, -1, 0);
+            assert!(p != libc::MAP_FAILED, "mmap failed");
+            let base = p as *mut u8;
+            assert_eq!(libc::mprotect(base as *mut libc::c_void, PAGE, libc::PROT_NONE), 0);
+            assert_eq!(libc::mprotect(base.add((pages + 1) * PAGE) as *mut libc::c_void, PAGE, libc::PROT_NONE), 0);
+            Guarded { base, pages }
+        }
+    }
+    /// slice of `len` bytes whose end is flush against the trailing guard page
+    fn end_flush(&mut self, len: usize) -> &mut [u8] {
+        assert!(len <= self.pages * PAGE);
+        unsafe { std::slice::from_raw_parts_mut(self.base.add((self.pages + 1) * PAGE - len), len) }
+    }
+    /// slice of `len` bytes whose start is flush against the leading guard page
+    fn start_flush(&mut self, len: usize) -> &mut [u8] {
+        assert!(len <= self.pages * PAGE);
+        unsafe { std::slice::from_raw_parts_mut(self.base.add(PAGE), len) }
+    }
+    fn fill(&mut self, b: u8) {
+        unsafe { std::ptr::write_bytes(self.base.add(PAGE), b, self.pages * PAGE) }
+    }
+    fn rw(&self) -> &[u8] {
+        unsafe { std::slice::from_raw_parts(self.base.add(PAGE), self.pages * PAGE) }
+    }
+}
+
+impl Drop for Guarded {
+    fn drop(&mut self) {
+        unsafe {
+            libc::munmap(self.base as *mut libc::c_void, (self.pages + 2) * PAGE);
+        }
+    }
+}
+
+fn record_path() -> String {
+    format!("{VERIF_DIR}/logs/C12-guard-current.json")
+}
+
+/// The guard-page grid; runs in the child process, single-threaded.
+pub fn guard_child(ctx: &Ctx, rep: &mut Report) {
+    let started = Instant::now();
+    let _ = std::fs::create_dir_all(format!("{VERIF_DIR}/logs"));
+    // shared record of the case in flight
+    let rec_len = 512usize;
+    let file = std::fs::OpenOptions::new().read(true).write(true).create(true).truncate(true).open(record_path()).expect("record file");
+    file.set_len(rec_len as u64).unwrap();
+    use std::os::unix::io::AsRawFd;
+    let rec = unsafe { libc::mmap(std::ptr::null_mut(), rec_len, libc::PROT_READ | libc::PROT_WRITE, libc::MAP_SHARED, file.as_raw_fd(), 0) as *mut u8 };
+    assert!(rec as *mut libc::c_void != libc::MAP_FAILED);
+    let record = |s: &str| unsafe {
+        let b = s.as_bytes();
+        let n = b.len().min(rec_len - 1);
+        std::ptr::copy_nonoverlapping(b.as_ptr(), rec, n);
+        std::ptr::write_bytes(rec.add(n), 0, rec_len - n);
+    };
+    let mut st = Stats::new();
+    let mut failures: Vec<Failure> = vec![];
+    let mut dest_map = Guarded::new(2);
+    let mut src_map = Guarded::new(2);
+    let lens = c11::lengths();
+    let mut rng = SplitMix::new(mix(ctx.seed, 0xC12));
+    let thorough = ctx.tier == Tier::Thorough;
+    'outer: for path in c11::paths() {
+        for &op in &OPS {
+            for &len in &lens {
+                for placement in 0..2u8 {
+                    let scalars: Vec<u8> = if op == Op::Add {
+                        vec![1]
+                    } else if thorough {
+                        vec![0, 1, 2, 0x1D, 0x80, 0xFF, rng.next_u64() as u8, rng.next_u64() as u8]
+                    } else {
+                        vec![1, 2, 0xFF, rng.next_u64() as u8]
+                    };
+                    for scalar in scalars {
+                        let c = Case { path, op, len, d_off: 0, s_off: 0, scalar, content: 0, seed: rng.next_u64() };
+                        if !c11::precondition_ok(&c) {
+                            continue;
+                        }
+                        let binary = op == Op::FmaBinary;
+                        let d0 = c11::fill(0, c.seed, len, false);
+                        let s0 = c11::fill(0, c.seed ^ 0x5151, len, binary);
+                        dest_map.fill(0xA5);
+                        src_map.fill(0xA5);
+                        let (d, s) = if placement == 0 { (dest_map.end_flush(len), src_map.end_flush(len)) } else { (dest_map.start_flush(len), src_map.start_flush(len)) };
+                        d.copy_from_slice(&d0);
+                        s.copy_from_slice(&s0);
+                        let mut cj = c11::case_json(&c);
+                        cj["placement"] = json!(if placement == 0 { "end-flush" } else { "start-flush" });
+                        record(&cj.to_string());
+                        let ran = match catch(|| c11::invoke(&c, d, s)) {
+                            Ok(r) => r,
+                            Err(p) => {
+                                failures.push(simple_failure("guard", format!("panic: {p}"), format!("guard:{}:{:?}:panic", c11::path_name(path), op), cj.clone()));
+                                break 'outer;
+                            }
+                        };
+                        if !ran {
+                            continue;
+                        }
+                        st.eval();
+                        let want = c11::model(&c, &d0, &s0);
+                        if d[..] != want[..] {
+                            failures.push(simple_failure("guard", format!("{} {:?} len={len}: wrong result under guard-page placement", c11::path_name(path), op), format!("guard:{}:{:?}:value", c11::path_name(path), op), cj.clone()));
+                            break 'outer;
+                        }
+                        // canary on the non-guarded side
+                        let rw = dest_map.rw();
+                        let (lo, hi) = if placement == 0 { (0, rw.len() - len) } else { (len, rw.len()) };
+                        if rw[lo..hi].iter().any(|&b| b != 0xA5) {
+                            failures.push(simple_failure("guard", format!("{} {:?} len={len}: wrote outside the destination slice", c11::path_name(path), op), format!("guard:{}:{:?}:canary", c11::path_name(path), op), cj.clone()));
+                            break 'outer;
+                        }
+                        let w = match path {
+                            Path::Kernel(raptorq::verif::verif_kernels::Kernel::Avx512) | Path::Dispatch => 64,
+                            Path::Kernel(raptorq::verif::verif_kernels::Kernel::Avx2) => 32,
+                            Path::Kernel(raptorq::verif::verif_kernels::Kernel::Ssse3) => 16,
+                            _ => 8,
+                        };
+                        if len % w != 0 {
+                            st.nt_enumerated(1);
+                        }
+                        st.class(if placement == 0 { "end flush against a guard page" } else { "start flush against a guard page" });
+                        st.sample(|| cj.clone());
+                    }
+                }
+            }
+        }
+    }
+    record("{\"done\":true}");
+    rep.absorb("guard", SubOutcome { stats: st, failures, wall_s: started.elapsed().as_secs_f64() });
+}
+
+/// Parent side: run the child, interpret a fatal signal as a violation with the recorded case.
+fn guard_parent(ctx: &Ctx) -> SubOutcome {
+    let started = Instant::now();
+    let exe = std::env::current_exe().expect("current_exe");
+    let partial = format!("{VERIF_DIR}/logs/C12-guard-partial.json");
+    let _ = std::fs::remove_file(&partial);
+    let _ = std::fs::remove_file(record_path());
+    let status = std::process::Command::new(exe)
+        .args(["C12", "--tier", ctx.tier.name(), "--seed", &ctx.seed.to_string(), "--only", "guard-child", "--partial-out", &partial])
+        .stdout(std::process::Stdio::null())
+        .status()
+        .expect("spawn guard child");
+    let mut st = Stats::new();
+    let mut failures = vec![];
+    use std::os::unix::process::ExitStatusExt;
+    if let Some(sig) = status.signal() {
+        let rec = std::fs::read(record_path()).unwrap_or_default();
+        let text = String::from_utf8_lossy(&rec).trim_end_matches('\0').to_string();
+        let case: Value = serde_json::from_str(&text).unwrap_or(json!({"raw": text}));
+        let what = format!("{} {}", case["path"].as_str().unwrap_or("?"), case["op"].as_str().unwrap_or("?"));
+        failures.push(simple_failure(
+            "guard",
+            format!("child killed by signal {sig} while running {what} len={} ({}): access outside the operand slice", case["len"], case["placement"].as_str().unwrap_or("?")),
+            format!("guard:{}:{}:fault", case["path"].as_str().unwrap_or("?"), case["op"].as_str().unwrap_or("?")),
+            case,
+        ));
+        st.eval();
+    } else if let Ok(text) = std::fs::read_to_string(&partial) {
+        let v: Value = serde_json::from_str(&text).unwrap_or(Value::Null);
+        st.evals(v["evaluations"].as_u64().unwrap_or(0));
+        st.nt_enumerated(v["distinct_nontrivial"].as_u64().unwrap_or(0));
+        if let Some(m) = v["classes"].as_object() {
+            for (k, n) in m {
+                st.class_n(k.trim_start_matches("guard/"), n.as_u64().unwrap_or(0));
+            }
+        }
+        if let Some(a) = v["samples"].as_array() {
+            for s in a.iter().take(3) {
+                st.samples.push(s["case"].clone());
+            }
+        }
+        if let Some(a) = v["failures"].as_array() {
+            for f in a {
+                failures.push(simple_failure("guard", f["message"].as_str().unwrap_or("").to_string(), f["signature"].as_str().unwrap_or("").to_string(), f["case"].clone()));
+            }
+        }
+    } else {
+        failures.push(simple_failure("guard", format!("guard child exited with {status} and left no result"), "guard:child-lost".into(), Value::Null));
+    }
+    SubOutcome { stats: st, failures, wall_s: started.elapsed().as_secs_f64() }
+}
+
+// --- slab paired borrow ---------------------------------------------------------------------------
+
+#[derive(Debug, Clone)]
+pub enum SlabOp {
+    Add { dest: u16, src: u16 },
+    Fma { dest: u16, src: u16, scalar: u8 },
+    Mul { dest: u16, scalar: u8 },
+    Pair { dest: u16, src: u16 },
+}
+
+#[derive(Debug, Clone)]
+pub struct SlabCase {
+    count: usize,
+    ss: usize,
+    mapping_seed: Option<u64>,
+    seed: u64,
+    ops: Vec<SlabOp>,
+}
+
+fn slab_strategy() -> impl Strategy<Value = SlabCase> {
+    let op = prop_oneof![
+        3 => (any::<u16>(), any::<u16>()).prop_map(|(dest, src)| SlabOp::Add { dest, src }),
+        3 => (any::<u16>(), any::<u16>(), any::<u8>()).prop_map(|(dest, src, scalar)| SlabOp::Fma { dest, src, scalar }),
+        1 => (any::<u16>(), any::<u8>()).prop_map(|(dest, scalar)| SlabOp::Mul { dest, scalar }),
+        2 => (any::<u16>(), any::<u16>()).prop_map(|(dest, src)| SlabOp::Pair { dest, src }),
+    ];
+    (
+        1usize..=40,
+        prop_oneof![1usize..=9, 60usize..=70, 120usize..=136, Just(1usize), Just(64usize), Just(63usize), Just(65usize)],
+        proptest::option::of(any::<u64>()),
+        any::<u64>(),
+        proptest::collection::vec(op, 1..40),
+    )
+        .prop_map(|(count, ss, mapping_seed, seed, ops)| SlabCase { count, ss, mapping_seed, seed, ops })
+}
+
+/// index mapping: raw value onto 0..count+1 (count itself = one past the end, must be refused)
+fn idx(raw: u16, count: usize) -> usize {
+    ((raw as usize) * (count + 1)) >> 16
+}
+
+fn slab_check(c: &SlabCase, st: &mut Stats) -> Result<(), String> {
+    let mut rng = SplitMix::new(c.seed);
+    let mut slab = SymbolSlab::with_zeros(c.count, c.ss);
+    // physical contents
+    let mut phys: Vec<Vec<u8>> = (0..c.count).map(|_| rng.bytes(c.ss)).collect();
+    for i in 0..c.count {
+        slab.get_mut(i).copy_from_slice(&phys[i]);
+    }
+    let order: Vec<usize> = match c.mapping_seed {
+        Some(ms) => {
+            let mut o: Vec<usize> = (0..c.count).collect();
+            SplitMix::new(ms).shuffle(&mut o);
+            slab.set_reorder(o.clone());
+            o
+        }
+        None => (0..c.count).collect(),
+    };
+    st.class_if(c.mapping_seed.is_some(), "with reorder mapping");
+    // buffer extent from the addresses of all symbols
+    let base = (0..c.count).map(|i| slab.get(i).as_ptr() as usize).min().unwrap();
+    let end = base + c.count * c.ss;
+    let mut pairs = 0;
+    let mut refusals = 0;
+    for (n, op) in c.ops.iter().enumerate() {
+        let (dest, src) = match op {
+            SlabOp::Add { dest, src } | SlabOp::Fma { dest, src, .. } | SlabOp::Pair { dest, src } => (idx(*dest, c.count), idx(*src, c.count)),
+            SlabOp::Mul { dest, .. } => (idx(*dest, c.count), usize::MAX),
+        };
+        let must_refuse = match op {
+            SlabOp::Mul { .. } => dest >= c.count,
+            _ => dest >= c.count || src >= c.count || dest == src,
+        };
+        let before = phys.clone();
+        let r = catch(|| match op {
+            SlabOp::Add { .. } => slab.add_assign(dest, src),
+            SlabOp::Fma { scalar, .. } => slab.fma(dest, src, &Octet::new(*scalar)),
+            SlabOp::Mul { scalar, .. } => slab.mulassign_scalar(dest, &Octet::new(*scalar)),
+            SlabOp::Pair { .. } => {
+                let (d, s) = slab.get_pair_mut(dest, src);
+                let (dp, dl, sp, sl) = (d.as_ptr() as usize, d.len(), s.as_ptr() as usize, s.len());
+                if dl != c.ss || sl != c.ss {
+                    panic!("VERIF: pair borrow returned slices of length {dl}/{sl}, symbol size is {}", c.ss);
+                }
+                if dp < base || dp + dl > end || sp < base || sp + sl > end {
+                    panic!("VERIF: pair borrow returned a slice outside the slab buffer");
+                }
+                if dp < sp + sl && sp < dp + dl {
+                    panic!("VERIF: pair borrow returned overlapping slices (dest {dest}, src {src})");
+                }
+            }
+        });
+        match (r, must_refuse) {
+            (Err(p), false) => {
+                if p.contains("VERIF:") {
+                    return Err(format!("op {n} {op:?}: {p}"));
+                }
+                // fma with scalar 0/1 is a documented don't-call in debug builds
+                if cfg!(debug_assertions) && matches!(op, SlabOp::Fma { scalar, .. } if *scalar <= 1) {
+                    continue;
+                }
+                return Err(format!("op {n} {op:?} (dest {dest}, src {src}, count {}): unexpected panic: {p}", c.count));
+            }
+            (Err(p), true) => {
+                if p.contains("VERIF:") {
+                    return Err(format!("op {n} {op:?}: {p}"));
+                }
+                refusals += 1;
+                continue;
+            }
+            (Ok(()), true) => {
+                return Err(format!("op {n} {op:?}: dest {dest}, src {src} with {} symbols was accepted (dest == src or out of range must be refused)", c.count));
+            }
+            (Ok(()), false) => {}
+        }
+        // model update on physical symbols
+        match op {
+            SlabOp::Add { .. } => {
+                let s = before[order[src]].clone();
+                for (x, y) in phys[order[dest]].iter_mut().zip(&s) {
+                    *x ^= y;
+                }
+            }
+            SlabOp::Fma { scalar, .. } => {
+                let s = before[order[src]].clone();
+                for (x, y) in phys[order[dest]].iter_mut().zip(&s) {
+                    *x ^= rf::mul(*scalar, *y);
+                }
+            }
+            SlabOp::Mul { scalar, .. } => {
+                for x in phys[order[dest]].iter_mut() {
+                    *x = rf::mul(*scalar, *x);
+                }
+            }
+            SlabOp::Pair { .. } => pairs += 1,
+        }
+        // every symbol equals the model (so: result right, and no other symbol changed)
+        for i in 0..c.count {
+            if slab.get(i) != &phys[order[i]][..] {
+                return Err(format!("after op {n} {op:?}: logical symbol {i} differs from the model (count {}, symbol size {})", c.count, c.ss));
+            }
+        }
+    }
+    st.class_n("pair borrows checked by address", pairs);
+    st.class_n("refused (dest == src or out of range)", refusals);
+    if pairs > 0 && c.mapping_seed.is_some() {
+        st.nt(fnv_u64s(&[c.count as u64, c.ss as u64, c.seed, c.mapping_seed.unwrap_or(0), c.ops.len() as u64]));
+    }
+    st.sample(|| json!({"count": c.count, "symbol_size": c.ss, "mapping": c.mapping_seed.is_some(), "ops": c.ops.len()}));
+    Ok(())
+}
+
+fn slab_json(c: &SlabCase) -> Value {
+    let ops: Vec<Value> = c
+        .ops
+        .iter()
+        .map(|o| match o {
+            SlabOp::Add { dest, src } => json!(["add", dest, src, 0]),
+            SlabOp::Fma { dest, src, scalar } => json!(["fma", dest, src, scalar]),
+            SlabOp::Mul { dest, scalar } => json!(["mul", dest, 0, scalar]),
+            SlabOp::Pair { dest, src } => json!(["pair", dest, src, 0]),
+        })
+        .collect();
+    json!({"count": c.count, "ss": c.ss, "mapping_seed": c.mapping_seed, "seed": c.seed, "ops": ops})
+}
+
+fn slab_from(v: &Value) -> SlabCase {
+    SlabCase {
+        count: v["count"].as_u64().unwrap() as usize,
+        ss: v["ss"].as_u64().unwrap() as usize,
+        mapping_seed: v["mapping_seed"].as_u64(),
+        seed: v["seed"].as_u64().unwrap(),
+        ops: v["ops"]
+            .as_array()
+            .unwrap()
+            .iter()
+            .map(|o| {
+                let (d, s, c) = (o[1].as_u64().unwrap() as u16, o[2].as_u64().unwrap() as u16, o[3].as_u64().unwrap() as u8);
+                match o[0].as_str().unwrap() {
+                    "add" => SlabOp::Add { dest: d, src: s },
+                    "fma" => SlabOp::Fma { dest: d, src: s, scalar: c },
+                    "mul" => SlabOp::Mul { dest: d, scalar: c },
+                    _ => SlabOp::Pair { dest: d, src: s },
+                }
+            })
+            .collect(),
+    }
+}
+
+pub fn run(ctx: &Ctx, rep: &mut Report) {
+    if ctx.only.as_deref() == Some("guard-child") {
+        guard_child(ctx, rep);
+        return;
+    }
+    rep.rule = "guard pages: every kernel entry point (each supported private kernel + public dispatchers) x op x length in 0..=320 U {511,512,513,1280,4099} x {end of both operands flush against a PROT_NONE page, start flush after one} x 4 (quick) / 8 (thorough) scalars, in a child process; a fault is reported with the case recorded in a shared file; results are also compared with the element-wise model and the unguarded side is canary-checked. Slab: generated (count 1..=40, symbol size around 1..9 / 60..70 / 120..136, optional reorder permutation, 1..40 operations add/fma/mul/pair-borrow with indices that include dest == src and one-past-the-end): returned slices must lie inside the slab and be disjoint, illegal pairs must panic, every symbol must equal the model after every operation. AddressSanitizer replay of a generated corpus through the fuzz targets is run by the driver and merged. Non-trivial = kernel case with length not a multiple of the kernel width and an operand flush against a guard page; slab case with a pair borrow under a reorder mapping.".into();
+    rep.assumptions.push("dynamic detection: only executed paths; NEON kernels excluded (x86-64 host); the packed operand of fma_binary lives in a Vec and is covered by the ASan detector, not by guard pages".into());
+    if ctx.wants("guard") {
+        rep.absorb("guard", guard_parent(ctx));
+    }
+    if ctx.wants("slab") {
+        let n = ctx.tier.pick(40_000u64, 1_000_000);
+        rep.absorb(
+            "slab",
+            run_sharded("C12", "slab", ctx.seed, n, 32, slab_strategy, slab_check, slab_json, |_, m| {
+                let kind = if m.contains("overlapping") {
+                    "overlap"
+                } else if m.contains("outside the slab") {
+                    "outside"
+                } else if m.contains("was accepted") {
+                    "accepted-illegal-pair"
+                } else if m.contains("differs from the model") {
+                    "value"
+                } else {
+                    "other"
+                };
+                format!("slab:{kind}")
+            }),
+        );
+    }
+}
+
+pub fn replay(sub: &str, case: &Value) -> Result<(), String> {
+    match sub {
+        "slab" => slab_check(&slab_from(case), &mut Stats::new()),
+        "guard" => {
+            // re-run the single case under the recorded placement; a fault kills this process,
+            // which the driver reports as the violation reproducing
+            let c = c11::case_from(case);
+            let mut dm = Guarded::new(2);
+            let mut sm = Guarded::new(2);
+            let binary = c.op == Op::FmaBinary;
+            let d0 = c11::fill(0, c.seed, c.len, false);
+            let s0 = c11::fill(0, c.seed ^ 0x5151, c.len, binary);
+            let end = case["placement"].as_str() != Some("start-flush");
+            let (d, s) = if end { (dm.end_flush(c.len), sm.end_flush(c.len)) } else { (dm.start_flush(c.len), sm.start_flush(c.len)) };
+            d.copy_from_slice(&d0);
+            s.copy_from_slice(&s0);
+            c11::invoke(&c, d, s);
+            if d[..] != c11::model(&c, &d0, &s0)[..] {
+                return Err("wrong result".into());
+            }
+            Ok(())
+        }
+        _ => Err(format!("unknown sub-check {sub}")),
+    }
 }
